@@ -359,3 +359,163 @@ def flag_provenance_raw(facts):
                 out.append((k2, sorted(set(_split_terms(strip(var["init"]))))))
         walk(fn["body"], v)
     return out
+
+
+def estimation_state_written(facts):
+    """compact Theta / Tuple writers (v3 layout): an estimation-mode sketch (theta < 1) always uses the 3-long preamble and writes
+    theta, whatever its emptiness and entry count - the single-item and empty short forms exist only in exact mode.  Decided by a
+    truth table over e = is_estimation_mode(), z = is_empty(), s = (entries_.size() == 1) on the writer's own expressions:
+    for every assignment  e => preamble_longs == 3,  and the condition guarding the write of theta_ is equivalent to e."""
+    import itertools
+    from astu import functions_by, strip_all, strip, walk, txt, short, local_decls, stmts_of
+    fns = functions_by(facts, ["theta", "tuple"])
+    out = []
+
+    def ev(e, env, decls, depth=0):
+        e = strip_all(e)
+        k = e.get("k")
+        if depth > 8:
+            return None
+        if k == "Call" and e.get("cname") == "is_estimation_mode":
+            return env["e"]
+        if k == "Call" and e.get("cname") == "is_empty":
+            return env["z"]
+        if k == "Call" and e.get("cname") == "get_preamble_longs":
+            return env.get("PL")
+        if k == "Bin":
+            op = e["op"]
+            if op in ("==", "!=", ">", "<", ">=", "<="):
+                t = txt(e).replace(" ", "")
+                if t in ("(entries_.size()==1)", "(1==entries_.size())"):
+                    return env["s"]
+                a, b = ev(e["l"], env, decls, depth + 1), ev(e["r"], env, decls, depth + 1)
+                if a is None or b is None or isinstance(a, bool) != isinstance(b, bool) and False:
+                    return None
+                try:
+                    return {"==": a == b, "!=": a != b, ">": a > b, "<": a < b, ">=": a >= b, "<=": a <= b}[op]
+                except Exception:
+                    return None
+            a, b = ev(e["l"], env, decls, depth + 1), ev(e["r"], env, decls, depth + 1)
+            if op == "||":
+                return True if (a is True or b is True) else (False if (a is False and b is False) else None)
+            if op == "&&":
+                return False if (a is False or b is False) else (True if (a is True and b is True) else None)
+            return None
+        if k == "Un" and e.get("op") == "!":
+            a = ev(e["e"], env, decls, depth + 1)
+            return None if a is None else (not a)
+        if k == "Cond":
+            c = ev(e["c"], env, decls, depth + 1)
+            if c is None:
+                return None
+            return ev(e["a"] if c else e["e"], env, decls, depth + 1)
+        if k == "Ref" and e.get("dk") == "local" and e.get("d") in decls and decls[e["d"]].get("init") is not None:
+            if decls[e["d"]]["n"] == "preamble_longs" and "PL" in env:
+                return env["PL"]
+            return ev(decls[e["d"]]["init"], env, decls, depth + 1)
+        if k == "Ref" and e.get("dk") == "param" and e.get("n") == "compressed":
+            return env.get("compressed")
+        if "v" in e and k in ("Int", "Cast", "Bool"):
+            return e["v"] if k != "Bool" else bool(e.get("b", e.get("v")))
+        if k == "Bool":
+            return bool(e.get("b"))
+        return None
+    # the uncompressed preamble function of theta
+    gpl = [f for f in fns.values() if f["name"] == "get_preamble_longs" and "compact_theta_sketch_alloc" in f["qname"]]
+
+    def gpl_value(env):
+        if not gpl:
+            return None
+        env2 = dict(env, compressed=False)
+        for s in stmts_of(gpl[0]["body"]):
+            if s.get("k") == "If":
+                c = ev(s["c"], env2, {})
+                if c is None:
+                    return None
+                if c:
+                    r = [x for x in stmts_of(s["t"]) if x.get("k") == "Return"]
+                    return ev(r[0]["e"], env2, {}) if r else None
+            if s.get("k") == "Return":
+                return ev(s["e"], env2, {})
+        return None
+    for pat, fn in sorted(fns.items()):
+        if fn["name"] != "serialize" or not any(x in fn["qname"] for x in ("compact_theta_sketch_alloc", "compact_tuple_sketch")) or "array" in fn["qname"]:
+            continue
+        decls = local_decls(fn)
+        pl = [v for v in decls.values() if v["n"] == "preamble_longs"]
+        if not pl:
+            continue
+        # guard of the theta write
+        guards = []
+
+        def v(n):
+            if n.get("k") == "If":
+                hit = []
+                walk(n.get("t"), lambda x: hit.append(x) if x.get("k") == "Call" and x.get("cname") in ("write", "copy_to_mem") and any(strip_all(a).get("k") == "Member" and strip_all(a).get("f") == "theta_" for a in x.get("args", [])) else None)
+                if hit:
+                    guards.append(n["c"])
+        walk(fn["body"], v)
+        kind = "stream" if any("basic_ostream" in p["t"] for p in fn["params"]) else "bytes"
+        key = "%s(%s)" % (short(fn["patq"]), kind)
+        if len(guards) != 1:
+            out.append(ob("layout.estimation-state", key + ":theta-guard", fn["pat"], "unrecognised", "%d guarded writes of theta_ found" % len(guards), fn["qname"]))
+            continue
+        bad_pl, bad_g = [], []
+        for e_, z_, s_ in itertools.product((False, True), repeat=3):
+            if z_ and s_:
+                continue  # an empty sketch has no entries
+            env = {"e": e_, "z": z_, "s": s_}
+            init = strip_all(pl[0]["init"])
+            plv = gpl_value(env) if (init.get("k") == "Call" and init.get("cname") == "get_preamble_longs") else ev(pl[0]["init"], env, decls)
+            if plv is None:
+                bad_pl.append("preamble_longs not evaluable for %s" % env)
+                break
+            if e_ and plv != 3:
+                bad_pl.append("is_estimation_mode()=true, is_empty()=%s, one entry=%s: preamble_longs = %s" % (str(z_).lower(), str(s_).lower(), plv))
+            g = ev(guards[0], dict(env, PL=plv), decls)
+            if g is None:
+                bad_g.append("guard `%s` not evaluable" % txt(guards[0]))
+                break
+            if g != e_:
+                bad_g.append("is_estimation_mode()=%s, is_empty()=%s, one entry=%s: theta is %swritten" % (str(e_).lower(), str(z_).lower(), str(s_).lower(), "" if g else "NOT "))
+        out.append(ob("layout.estimation-state", key + ":preamble-longs", pl[0]["loc"], "violated" if bad_pl else "discharged", (bad_pl[0] + " - an estimation-mode sketch is written in a short form that has no theta field; every reader restores theta = 1.0 and the estimate collapses to the retained count") if bad_pl else "estimation mode always selects the 3-long preamble", fn["qname"]))
+        out.append(ob("layout.estimation-state", key + ":theta-guard", guards[0].get("loc", fn["pat"]), "violated" if bad_g else "discharged", (bad_g[0] + " (guard `%s`)" % txt(guards[0])) if bad_g else "theta_ is written exactly when the sketch is in estimation mode", fn["qname"]))
+    if len(out) < 8:
+        out.append(ob("layout.estimation-state", "anchor", "", "unrecognised", "expected the stream and byte writers of compact theta and compact tuple (8 obligations), found %d" % len(out), ""))
+    return out
+
+
+def hll_set_probe(facts):
+    """The SET-mode coupon table is written and read verbatim in updatable HLL images, so the slot a coupon occupies is part of the
+    cross-language layout: start = coupon & (size - 1), stride = ((coupon & KEY_MASK_26) >> lgArrInts) | 1 (address bits only,
+    forced odd).  Writer-side insert and reader-side lookup share this function, so a consistent change is invisible to every
+    C++ round trip."""
+    from astu import functions_by, strip_all, walk, txt, short, local_decls
+    fns = functions_by(facts, ["hll"])
+    out = []
+    for pat, fn in sorted(fns.items()):
+        if not (fn["name"] == "find" and "CouponHashSet" in fn["pat"] and len(fn["params"]) == 3):
+            continue
+        decls = local_decls(fn)
+        st = [v for v in decls.values() if v["n"] == "stride"]
+        key = "CouponHashSet::find:stride"
+        if not st or st[0].get("init") is None:
+            out.append(ob("layout.hll-set-probe", key, fn["pat"], "unrecognised", "no local `stride` found", fn["qname"]))
+            continue
+        e = strip_all(st[0]["init"])
+        ok = False
+        why = txt(e)
+        if e.get("k") == "Bin" and e.get("op") == "|" and strip_all(e["r"]).get("v") == 1:
+            sh = strip_all(e["l"])
+            if sh.get("k") == "Bin" and sh.get("op") == ">>" and txt(sh["r"]) == "lgArrInts":
+                m = strip_all(sh["l"])
+                if m.get("k") == "Bin" and m.get("op") == "&":
+                    sides = [strip_all(m["l"]), strip_all(m["r"])]
+                    ok = any(s.get("k") == "Ref" and s.get("n") == "coupon" for s in sides) and any(s.get("v") == 0x3ffffff for s in sides)
+        out.append(ob("layout.hll-set-probe", key, st[0]["loc"], "discharged" if ok else "violated", "stride = ((coupon & KEY_MASK_26) >> lgArrInts) | 1" if ok else "probe stride is `%s`, documented `((coupon & KEY_MASK_26) >> lgArrInts) | 1`: for tables of 2^14 slots and more the value bits of the coupon leak into the stride, so coupons sit in slots that a reader probing as documented (Java, earlier releases) never visits - and the reverse for images it reads" % why, fn["qname"]))
+        pr = [v for v in decls.values() if v["n"] == "probe"]
+        ok2 = bool(pr) and txt(pr[0].get("init")).replace(" ", "") == "(coupon&arrMask)"
+        out.append(ob("layout.hll-set-probe", "CouponHashSet::find:start", fn["pat"], "discharged" if ok2 else "violated", "start = coupon & (size - 1)" if ok2 else "probe start is `%s`" % (txt(pr[0].get("init")) if pr else "?"), fn["qname"]))
+    if not out:
+        out.append(ob("layout.hll-set-probe", "anchor", "", "unrecognised", "CouponHashSet find not found", ""))
+    return out
